@@ -685,7 +685,10 @@ func ruleLexerBack(c *Ctx) *RuleResult {
 					// the back() that follows it reads it
 					r.ok(key, c.pos(st.Pos()), fname(fn), "peek records the peeked width; harmless because back() only ever follows next()")
 				} else {
-					r.viol(key, c.pos(st.Pos()), fname(fn), "writes the lexer cursor field "+fnm+" outside next/back/tokenize")
+					// another cursor discipline (a scanner that walks the bytes itself and
+					// stores the position): whether the cursor stays inside the expression is
+					// arithmetic this rule does not do
+					r.undecided(key, c.pos(st.Pos()), fname(fn), "writes the lexer cursor field "+fnm+" outside next/back/tokenize: the push-back protocol does not cover this scanner")
 				}
 			}
 		}
